@@ -13,8 +13,15 @@
      (`single_document_class_serialises`, `…_linearizable`): all work of these
      calls lies between the claim and the release of the document name
      (`Proofs/Serial.lean`: serialisation of bracketed threads).
-  Not proved: readers (retrieve_metadata) running beside a writer of the same
-  document, and mixes with `delete_object`.
+   * readers: `reader_gets_one_whole_version` — any number of threads running ANY calls on any
+     pids and formats (stores, deletes of one or all documents, `delete_object`, readers), every
+     schedule, every granularity of interleaving down to single primitives: a
+     `retrieve_metadata` that returns normally returns one complete version — one that was in the
+     store at the start or that one of the concurrent `store_metadata` calls supplied — and
+     every document in the directory is such a version at every step (so "the final document is
+     a complete supplied version or is absent").
+  Not proved: that the version a reader gets is the one a sequential order would give it when
+  writers of the same document overlap it, and mixes with `delete_object`.
   Refuted: with `delete_metadata(p)` (all formats) in the menu the full statement is
   false — the directory is listed before any name is claimed (K3); witness by
   `decide`, replayed on the real threads on every run.
@@ -147,5 +154,41 @@ example : ∀ x ∈ callsS, OnDoc cfgW oW "hp1ns".toList x := by
   · refine ⟨(by intro h; cases h), ?_⟩
     intro p f h1 h2; rw [hp] at h1; rw [hf2] at h2; cases h1; cases h2; rfl
   · intro p f h1 h2; rw [hp] at h1; rw [hf1] at h2; cases h1; cases h2; rfl
+
+/-! ### readers beside writers -/
+
+/-- **A reader gets one complete version or an error; documents are whole at every step.**
+    Any number of threads running any calls (writers and deleters of the same or other documents,
+    `delete_object`, readers), from any world whose documents hold versions from `ts0`, every
+    schedule, every granularity (`fuel = 1`: one primitive per step, so a reader may be
+    overtaken between its existence probe and its read): at every step every document holds a
+    version from `ts0` or one a `store_metadata` call of the set supplied, and a
+    `retrieve_metadata` that has returned normally returned such a version. -/
+theorem reader_gets_one_whole_version (cfg : Config) (o : Oracle) (calls : List Call) (w0 : World)
+    (vs0 : List Str) (ts0 : List Tok) (hv : C09.ValuesFrom vs0 ts0 w0.st) (hob : C09.ObjsAddressed cfg o w0.st)
+    (fuel : Nat) (sched : List Nat) (n : Nat) :
+    let cf := (runSchedule fuel { w := w0, ts := calls.map (fun c => TState.fresh (c.prog cfg o)) } sched n).1
+    let ts := ts0 ++ calls.flatMap C09.docsSupplied
+    (∀ d m t, cf.w.st.mdocs.get (d, m) = some t → t ∈ ts) ∧
+    ∀ (i : Nat) (r : Except Exc Val) (pid f : SArg), cf.ts[i]? = some (.finished r) →
+      calls[i]? = some (.retrieveMetadata pid f) → ∀ t, r = .ok (.content t) → t ∈ ts := by
+  intro cf ts
+  have h := C09.whole_under_every_interleaving cfg o calls w0 vs0 ts0 hv hob fuel sched n
+  exact ⟨h.1.2, fun i r pid f hi hc => (h.2.2 i r hi).1 pid f hc⟩
+
+/-- tests of the statement on literals: a writer, a reader and a deleter of one document, one
+    primitive per step. (a) the reader runs after the writer: it returns version 1; (b) the
+    reader is overtaken by the deleter between its existence probe and its read: it returns a
+    not-found error, not a partial document -/
+def readerCalls : List Call := [.storeMetadata p1 (.ok 1) .none, .retrieveMetadata p1 .none, .deleteMetadata p1 .none]
+def readerDemo (s : List Nat) : Conf × Nat := runSchedule 1
+  { w := { st := Store.empty }, ts := readerCalls.map (fun c => TState.fresh (c.prog cfgW oW)) } s 0
+def finishedWith : Option TState → Option (Except Exc Val)
+  | some (.finished r) => some r
+  | _ => none
+example : finishedWith (readerDemo (List.replicate 6 0 ++ [1, 1, 1])).1.ts[1]? = some (.ok (.content 1)) := by decide
+example : (readerDemo (List.replicate 6 0 ++ [1] ++ List.replicate 6 2 ++ [1, 1])).1.allFinished = true ∧
+    finishedWith (readerDemo (List.replicate 6 0 ++ [1] ++ List.replicate 6 2 ++ [1, 1])).1.ts[1]?
+      = some (.error .fileNotFound) := by decide
 
 end HS.C12
